@@ -124,7 +124,7 @@ def guarded(f):
 
 
 def k_pack(c):
-    ctx = Ctx(c['cpb'], c['mvs'], pp=c.get('pp'))
+    ctx = long_lived(Ctx, c['cpb'], c['mvs'], pp=c.get('pp'))
     b = TransactionBuilder(ctx)
     change = mk_val(c['change'])
     before = dump_val(change)
@@ -134,7 +134,7 @@ def k_pack(c):
 
 
 def k_ovf(c):
-    ctx = Ctx(c['cpb'], c['mvs'], pp=c.get('pp'))
+    ctx = long_lived(Ctx, c['cpb'], c['mvs'], pp=c.get('pp'))
     b = TransactionBuilder(ctx)
     out = TransactionOutput(addr_of(c['addr']), mk_val(c['out']))
     cur = Asset()
@@ -168,7 +168,7 @@ def prep_builder(c, ctx):
 
 
 def k_calc(c):
-    ctx = Ctx(c['cpb'], c['mvs'], pp=c.get('pp'))
+    ctx = long_lived(Ctx, c['cpb'], c['mvs'], pp=c.get('pp'))
     b = prep_builder(c, ctx)
     ins = list(b.inputs)
     outs = list(b.outputs)
@@ -213,7 +213,7 @@ def snap_output(o):
 
 
 def k_minada(c):
-    ctx = Ctx(c['cpb'], 5000, pp=c.get('pp'))
+    ctx = long_lived(Ctx, c['cpb'], 5000, pp=c.get('pp'))
     dh, dt, sc, dbytes, sbytes = mk_datum_script(c)
     o = TransactionOutput(addr_of(c['addr']), mk_val(c['amount']), datum_hash=dh, datum=dt, script=sc,
                           post_alonzo=bool(c.get('post_alonzo')))
@@ -238,7 +238,7 @@ def dump_out(o):
 
 
 def k_add(c):
-    ctx = Ctx(c['cpb'], c['mvs'], pp=c.get('pp'))
+    ctx = long_lived(Ctx, c['cpb'], c['mvs'], pp=c.get('pp'))
     b = prep_builder(c, ctx)
     addr = addr_of(c['addr'])
     fee1 = b._estimate_fee()
@@ -274,7 +274,7 @@ def k_ser(c):
 
 def k_build(c):
     utxos = [mk_utxo(u) for u in c['pool']]
-    ctx = Ctx(c['cpb'], c['mvs'], utxos, pp=c.get('pp'))
+    ctx = long_lived(Ctx, c['cpb'], c['mvs'], utxos, pp=c.get('pp'))
     b = TransactionBuilder(ctx)
     for i in c['explicit']:
         b.add_input(utxos[i])
